@@ -12,6 +12,8 @@
    c08 (harness/rt/src/bin/c08.rs), not of a theorem. *)
 From Compio.Model Require Import Base Buf PipeSpec FileSpec.
 From Compio.Thm Require Import BufThm FileSpecThm.
+From Compio.Gen Require Frag.
+From Compio.Thm Require FragIoThm.
 
 (* ---------------------------------------------------------------------- *)
 (* the glue                                                                *)
@@ -345,3 +347,14 @@ Proof.
   - repeat split; vm_compute; reflexivity.
 Qed.
 Print Assumptions C08_mode_and_links_witness.
+
+(* ---- source tie (translated from the Rust source on every run by tools/rs2v.py
+        into gen/Frag.v; an edit of the function changes the generated definition) ---- *)
+(* the length field of the io_uring read / write SQEs (compio-driver/src/sys/op/general/iour.rs,
+   every site) as the source has it now is the model's clamp_u32 *)
+Theorem C08_request_len_is_source : forall n : N,
+  clamp_u32 n = Frag.iour_request_len n
+  /\ ProcSpec.request_len true n = Frag.iour_request_len n
+  /\ Frag.iour_request_len_sock n = Frag.iour_request_len n.
+Proof. exact FragIoThm.request_len_tie. Qed.
+Print Assumptions C08_request_len_is_source.
